@@ -59,11 +59,17 @@ def run_shape(case):
     try:
         gb = call(GroupBy, keyobj, sort=bool(case["sort"]))
         op = case["op"]
-        out = call(getattr(gb, op), values, mask=mask, observed_only=bool(case["oo"]))
+        tf = bool(case.get("tf"))
+        out = call(getattr(gb, op), values, mask=mask, transform=True) if tf else call(getattr(gb, op), values, mask=mask, observed_only=bool(case["oo"]))
+        if isinstance(out, pl.Series):
+            out = out.to_pandas()
+        elif isinstance(out, pl.DataFrame):
+            out = out.to_pandas()
     except Exception as ex:
         shape.update(out="raise", exc=type(ex).__name__, msg=str(ex)[:160], rkind="", rname="", ridxnames=[], rcols=[])
         return out_traces
     shape["out"] = "ok"
+    shape["tf"] = int(bool(case.get("tf")))
     shape["rkind"] = "series" if isinstance(out, pd.Series) else "frame" if isinstance(out, pd.DataFrame) else type(out).__name__
     shape["rname"] = (out.name if isinstance(out, pd.Series) and out.name is not None else "") if isinstance(out, pd.Series) else ""
     shape["rname"] = str(shape["rname"])
@@ -77,8 +83,10 @@ def run_shape(case):
         res, hi = api.dec_values(op, col.to_numpy(), emb)
         idx = col.index
         labels = [[e.dec(x) for e, x in zip(encs, t)] for t in idx.tolist()] if isinstance(idx, pd.MultiIndex) else [[encs[0].dec(x)] for x in idx.tolist()]
-        tr = dict(op=op, keys=case["keys"], vals=case["vcols"][j], mask=case["mask"], tf=0, oo=case["oo"], sort=case["sort"], emb=case.get("emb", "f64"),
+        if case.get("tf"):
+            labels = []          # transform: one value per input row
+        tr = dict(op=op, keys=case["keys"], vals=case["vcols"][j], mask=case["mask"], tf=int(bool(case.get("tf"))), oo=case["oo"], sort=case["sort"], emb=case.get("emb", "f64"),
                   kenc=case["kenc"], nonull=int(emb.nonull), rank=rank, seed=seed, out="ok", labels=labels, res=res, column=j, kind="column",
-                  cfg={"vkind": vk})
+                  cfg={"vkind": vk, "T": case.get("T")})
         out_traces.append(tr)
     return out_traces
